@@ -35,6 +35,7 @@ def dirIf (vars : Vars) (dirs : List Dir) (name : String) : R (Option Bool) :=
     | .lit b => .ok (some b)
     | .var v =>
       match vars.get? v with
+      | some .null => .error (.internal "CoercionError")     -- `Boolean!` given None (nullable variable with a default, set to null)
       | some j => .ok (some (truthy j))
       | none => .error (.internal "CoercionError")
     | .bad => .error (.internal "CoercionError")
@@ -211,7 +212,8 @@ def completeList (f : Path → RVal → R (Data × List Err)) (path : Path) :
   | _, [] => .ok ([], [])
   | i, v :: vs => do
     let (d, e) ← f (path ++ [.idx i]) v
-    let (ds, es) ← completeList f path (i + 1) vs
+    -- a ResolverError raised by a later item interrupts the list; the errors of the items already completed stay recorded
+    let (ds, es) ← keepErrs e (completeList f path (i + 1) vs)
     pure (d :: ds, e ++ es)
 
 /-- `complete_value` + `complete_non_nullable_value` + `_handle_non_nullable_value` + `resolve_type`.
@@ -232,6 +234,11 @@ def completeValue (s : SchemaD) (execSub : String → Path → List Sel → R (D
     | .leaf (.arr _) => .error .unsupported
     | .leaf _ => .error (.internal "RuntimeError")      -- not iterable
     | .obj _ => .error .unsupported                       -- a dict is iterable: outside the model
+    | .raise vs msg ext =>
+      -- a lazy iterable: the items it yields are completed, then it raises ResolverError
+      match completeList (completeValue s execSub nodes t) path 0 vs with
+      | .ok (_, es) => .error (.raised (.resolver msg ext) none es)
+      | .error x => .error x
   | .named n, path, v =>
     match v with
     | .null => .ok (.null, [])
@@ -256,6 +263,7 @@ def completeValue (s : SchemaD) (execSub : String → Path → List Sel → R (D
             if isPossibleType s n rt then execSub rt path (mergedSelections nodes)
             else .error (.internal "RuntimeError")
           | some _ => .error (.internal "RuntimeError")
+        | .raise _ msg ext => .error (.raised (.resolver msg ext) none [])   -- `resolve_type` raises ResolverError
         | _ => .error (.internal "UnknownType")                        -- `type(value).__name__`
 
 def isMeta (name : String) : Bool := name == "__schema" || name == "__type" || name == "__typename"
@@ -273,7 +281,9 @@ def resolveField (s : SchemaD) (w : World) (execSub : String → Path → List S
       match w parent fd.name path a with
       | .err msg ext => .ok (.null, [{ path := path, locs := [node.loc], kind := .resolver msg ext }])
       | .boom => .error (.internal "unexpected")
-      | .val v => completeValue s execSub nodes fd.type path v
+      | .val v =>
+        -- `try: complete_value(...) except ResolverError as err: add_error(err, path, node); return None`
+        catchField path node.loc (completeValue s execSub nodes fd.type path v)
 
 /-- `execute_fields` of `BlockingExecutor` (loop over `_iterate_fields`) -/
 def executeGroups (s : SchemaD) (w : World) (execSub : String → Path → List Sel → R (Data × List Err))
@@ -304,7 +314,8 @@ def executeFields (s : SchemaD) (doc : Doc) (vars : Vars) (w : World) (cf : Nat)
     Nat → String → Path → List Sel → R (Data × List Err)
   | 0 => fun _ _ _ => .error .outOfFuel
   | n + 1 => fun parent path sels => do
-    let (g, _) ← collectFields s doc vars cf parent sels []
+    -- `ResolutionContext.collect_fields`: a CoercionError (invalid @skip/@include condition) becomes a ResolverError
+    let (g, _) ← catchDirective (collectFields s doc vars cf parent sels [])
     let (kvs, es) ← executeGroups s w (executeFields s doc vars w cf n) parent path g
     pure (.obj kvs, es)
 
@@ -338,6 +349,8 @@ def execute (s : SchemaD) (doc : Doc) (vars : Vars) (w : World) (opname : Option
       else
         match executeFields s doc vars w cf fuel root [] op.sels with
         | .ok (d, es) => .result d es
+        -- `execute`: the root selection set cannot be collected: `GraphQLResult(data=None, errors=[err])`
+        | .error (.raised k l inner) => .result .null (inner ++ [{ path := [], locs := l.getD [], kind := k }])
         | .error f => .failed f
 
 /-! ### sizes used as fuel by the driver -/
